@@ -50,6 +50,7 @@ def instances(tier):
             for what in ("zone", "ac", "timer"):
                 out.append({"kind": "subheader", "gen": 5, "what": what})
             out.append({"kind": "redundant_byte", "gen": 5})
+        out.append({"kind": "ability_stride", "gen": g, "delta": 2})
         out.append({"kind": "stride", "gen": 5, "delta": 3 if g == 4 else 6, "what": "zone"})
         out.append({"kind": "stride", "gen": 5, "delta": 2 if g == 4 else 5, "what": "ac"})
         out.append({"kind": "stride", "gen": 5, "delta": 1 if g == 4 else 4, "what": "timer"})
@@ -301,6 +302,39 @@ def _free_stream(ctx, p):
         else:
             ctx.reach("free.header_as_reference")
     for lab in ("unknown.delivered_unchanged", "unknown.connection_undisturbed", "stride.prefix_decoded"):
+        ctx.reach(lab)
+
+
+def _ability_stride(ctx, p):
+    """AC ability records that announce a length above the known layout (free extra bytes), through the socket: every known
+    field - on AT4 including the group bitmap - is decoded from the known prefix, the connection stays up."""
+    from ref import at4 as r4
+    from ref import at5 as r5
+    g = Gen(p["gen"])
+    d = p["delta"]
+    if g.n == 4:
+        recs = [r4.build_ability(0, "Upstairs", 0, 2, 0b10101, 0b0110110, 17, 30, 0b0000000000000011),
+                r4.build_ability(1, "Down", 2, 2, 0b11111, 0b1111111, 16, 31, 0b1000000000001100)]
+    else:
+        recs = [r5.build_ability(0, "Upstairs", 0, 2, 0b10101, 0b0110110, 17, 30, 18, 31),
+                r5.build_ability(1, "Down", 2, 2, 0b11111, 0b1111111, 16, 31, 15, 29)]
+    payload = []
+    for i, r in enumerate(recs):
+        r = list(r)
+        r[1] = r[1] + d
+        payload += r + [ctx.byte(f"x{i}_{j}") for j in range(d)]
+    fr = _frame(ctx, g.n, 0xB0, 0x90, 5, 0x1F, framing.ext(0xFF11, payload))
+    got, conns, fails = _deliver_and_probe(ctx, g, fr)
+    ok = len(got) == 2 and conns == 1 and not fails
+    ctx.check(ok, "stride.prefix_decoded", detail={"what": "ability", "delivered": len(got), "conns": conns})
+    acs = got[0][2].sub_message.ac_abilities
+    ok2 = len(acs) == 2 and [a.ac_number for a in acs] == [0, 1] and [a.ac_name for a in acs] == ["Upstairs", "Down"]
+    if g.n == 4:
+        ok2 = ok2 and acs[0].groups == {0, 1} and acs[1].groups == {2, 3, 15} and acs[1].max_set_point == 31
+    else:
+        ok2 = ok2 and acs[1].start_zone == 2 and acs[1].zone_count == 2 and acs[1].max_heat_set_point == 29
+    ctx.check(ok2, "stride.prefix_decoded", detail={"what": "ability", "records": repr(acs)[:300]})
+    for lab in ("unknown.delivered_unchanged", "unknown.connection_undisturbed", "free.header_as_reference", "free.task_survives", "free.recovers"):
         ctx.reach(lab)
 
 
